@@ -77,6 +77,51 @@ def run_fw(pid, kappas, extra=None):
     return rep
 
 
+def batch_phase(rep, pid):
+    """Law instances on REAL source classes (spec/Batch.tla): element independence (C06), linearity and superposition (C05)."""
+    from ..drivers import batch as bdrv
+    cfg = f"MC_Batch_{tier()}.cfg"
+    res, states = tlc.dump_states("MC_Batch", cfg, name=f"{pid.lower()}_batch_mc")
+    tlc.require_ok(res)
+    plan = [{"kind": s["kind"], "arr": list(s["arr"]), "lin": list(s["lin"])} for s in states]
+    d = workdir(f"traces/{pid.lower()}_batch")
+    rng(pid + "b").shuffle(plan)
+    nproc = 16
+    per = (len(plan) + nproc - 1) // nproc
+    with mp.Pool(16) as pool:
+        counts = pool.map(bdrv.batch_events, [(plan[i * per:(i + 1) * per], os.path.join(d, f"b{i:02d}.ndjson"), (300 + i) * 1_000_000, "") for i in range(nproc) if plan[i * per:(i + 1) * per]])
+    files = sorted(glob.glob(os.path.join(d, "*.ndjson")))
+    n, rej, _ = tlc.validate("TV_Batch", "TV.cfg", files)
+    if n != sum(counts):
+        raise MachineryError(f"batch validator saw {n} events, harness logged {sum(counts)}")
+    rep.set("real_class_law_instances", n)
+    rep.set("real_class_plan_states", res["distinct"])
+    rep.add("traces_validated_against_impl", n)
+    details = {}
+    if rej:
+        want = {r_[1] for r_ in rej}
+        for p in files:
+            for line in open(p):
+                ev = json.loads(line)
+                if ev["tid"] in want:
+                    details[ev["tid"]] = {k: v for k, v in ev.items() if k not in ("T", "single", "whole", "parts", "obs", "obs1", "obs2")}
+    for r_ in rej:
+        _, tid, clause, prop, ctx = r_[:5]
+        ev = details.get(tid, {})
+        where = {"clause": clause, "kind": ctx[0], "field": ctx[1], "what": ctx[2]}
+        if ctx[0] == "batch":
+            l = ctx[3][0]
+            arr = ev.get("arr", [])
+            names = ctx[2].split("+")
+            where["what"] = names[l - 1] if 0 < l <= len(names) else ctx[2]
+            where["position"] = "last" if l == len(names) and l > 1 else ("first" if l == 1 and len(names) > 1 else ("alone" if len(names) == 1 else "middle"))
+            where["pixel"] = ctx[3][3]
+            where["neighbour"] = names[l - 2] if l > 1 else ""
+        what = f"{ctx[0]} {ctx[2]} field={ctx[1]} first bad element (l,m,k,p)={ctx[3]}: {clause}"
+        rep.reject(clause, where, what, ev, prop=prop)
+    rep.phase("real_class_laws")
+
+
 def replay_fw(path):
     case = json.load(open(path))["case"]
     from scipy.spatial.transform import Rotation as R
